@@ -71,7 +71,7 @@ class _Filterer(object):
             '$size': _size_op,
             '$type': _type_op
         }, **{
-            key: _not_nothing_and(_list_expand(_compare_objects(op)))
+            key: _sorting_operator(op)
             for key, op in SORTING_OPERATOR_MAP.items()
         })
 
@@ -297,6 +297,24 @@ def _in_op(doc_val, search_val):
 def _not_nothing_and(f):
     """wrap an operator to return False if the first arg is NOTHING"""
     return lambda v, l: v is not NOTHING and f(v, l)
+
+
+def _sorting_operator(op):
+    """Build a sorting operator ($gt, $gte, $lt, $lte) of the query language.
+
+    A missing field is only comparable to null, and compares as null: as it is $eq to null, it
+    is also $gte and $lte null.
+    """
+    compare = _list_expand(_compare_objects(op))
+
+    def _wrapped(doc_val, search_val):
+        if doc_val is NOTHING:
+            if search_val is not None:
+                return False
+            doc_val = None
+        return compare(doc_val, search_val)
+
+    return _wrapped
 
 
 def _compare_objects(op):
